@@ -2,6 +2,15 @@
 HOOK_COMMITS = []
 NOT_APPLICABLE = {}
 CLAIMS = {
+    "C13": dict(
+        text="spec/Forms.tla defines a grammar of bilinear forms over grad u and grad v (transpose, symmetric part, tr(.) I, double contraction, weights, sums, constant or position-dependent coefficient) and computes the meaning of every "
+        "form as an exact coefficient tensor by evaluating it on unit gradients; TLC enumerates all 152 forms (2-D and 3-D) and checks the trial/test duality of the tensor. Every TLC state is compiled to a Python lambda over Field / FeArray "
+        "operations; BiLinearForm.Integrate_e (twice with the same Field object) and .Assemble are compared with explicit sums over the tensor and with the scatter-add, on several element types. Outside the grammar: forms coinciding with built-in "
+        "operators (grad.grad, scalar and vector mass, isotropic elasticity) against Operators.Bilinear, LinearForm.Integrate_e / Assemble against their definition, and Simulations.WeakForms against Simulations.Thermal / Elastic.",
+        note="Trusted: TLC for the tensors; the compiler from expression to lambda (a dozen lines); dN, wJ of the library as ingredients of the reference sums (validated by C06/C07/C01).",
+        technique="TLA+ grammar + meaning (coefficient tensors) enumerated by TLC; each form compiled and replayed through the forms API",
+        design_ref="DESIGN.md 6/C13",
+    ),
     "C10": dict(
         text="spec/FrameIndiff.tla (an instance of Geometry.tla) models a problem as four frames - mesh, material / beam-section axes, constraints, loads - moved together by exact rational isometries; TLC checks AllFramesEqual and the "
         "isometry invariants over all motion sequences and rejects a motion that forgets one part. Every TLC frame is replayed as a metamorphic test on the real code: elastic (isotropic, orthotropic with moved axes; static and one Newmark step), "
